@@ -39,17 +39,20 @@ class Write:
         self.func, self.node, self.stmt, self.roots, self.flags, self.how = func, node, stmt, roots, flags, how
 
 
-def tri(test, flagname, val):
-    """Three-valued evaluation of ``test`` with the flag fixed to ``val``: True/False/None"""
+def tri(test, flagname, val, call_hook=None):
+    """Three-valued evaluation of ``test`` with the flag fixed to ``val``: True/False/None.  ``call_hook(call, flag, val)``
+    evaluates a call to a predicate helper (single ``return <boolean expression>``) the same way."""
     if isinstance(test, ast.Name) and test.id == flagname:
         return val
+    if isinstance(test, ast.Call) and call_hook is not None:
+        return call_hook(test, flagname, val)
     if isinstance(test, ast.Constant):
         return bool(test.value)
     if isinstance(test, ast.UnaryOp) and isinstance(test.op, ast.Not):
-        v = tri(test.operand, flagname, val)
+        v = tri(test.operand, flagname, val, call_hook)
         return None if v is None else (not v)
     if isinstance(test, ast.BoolOp):
-        vals = [tri(v, flagname, val) for v in test.values]
+        vals = [tri(v, flagname, val, call_hook) for v in test.values]
         if isinstance(test.op, ast.And):
             if any(v is False for v in vals):
                 return False
@@ -123,7 +126,7 @@ class Effects:
                 and not f.is_staticmethod:
             m = prog.find_method(f.cls, fn.attr)
             if m is not None:
-                return m, 1, None
+                return m, (0 if m.is_staticmethod else 1), None
         if isinstance(fn, ast.Attribute) and isinstance(fn.value, ast.Call) and isinstance(fn.value.func, ast.Name) and fn.value.func.id == "super" and f.cls is not None:
             for k in prog.mro(f.cls)[1:]:
                 if fn.attr in k.methods:
@@ -221,8 +224,37 @@ class Effects:
                     out["writes"].append(w)
         return out
 
+    def _predicate(self, f):
+        """hook for tri(): a call to a helper whose body is one ``return <expr>`` is decided on that expression"""
+        def hook(call, flagname, val, depth=[0]):
+            callee, off, _ = self._callee(f, call, {})
+            if callee is None or depth[0] > 3 or any(isinstance(a, ast.Starred) for a in call.args):
+                return None
+            body = [s for s in callee.node.body if not (isinstance(s, ast.Expr) and isinstance(s.value, ast.Constant))]
+            if len(body) != 1 or not isinstance(body[0], ast.Return) or body[0].value is None:
+                return None
+            names = callee.all_param_names()[off:] if not callee.is_staticmethod or off == 0 else callee.all_param_names()
+            if callee.is_staticmethod:
+                names = callee.all_param_names()
+            formal = None
+            for i, a in enumerate(call.args):
+                if isinstance(a, ast.Name) and a.id == flagname and i < len(names):
+                    formal = names[i]
+            for k in call.keywords:
+                if isinstance(k.value, ast.Name) and k.value.id == flagname:
+                    formal = k.arg
+            if formal is None:
+                return None
+            depth[0] += 1
+            try:
+                return tri(body[0].value, formal, val, self._predicate(callee))
+            finally:
+                depth[0] -= 1
+        return hook
+
     def _analyse1(self, f, tracked, flags0):
-        cfg = CFG(f.node)
+        cfg = CFG(_desugar_ifexp(f.node))
+        hook = self._predicate(f)
         flag = self.flag if (self.flag and self.flag in f.all_param_names()) else None
         env0 = {}
         for p in f.all_param_names():
@@ -352,11 +384,11 @@ class Effects:
                 outs = {}
                 for lbl, want in (("T", True), ("F", False)):
                     if cur == "orig":
-                        keep = frozenset(v for v in orig if tri(st.test, flag, v) in (want, None))
+                        keep = frozenset(v for v in orig if tri(st.test, flag, v, hook) in (want, None))
                         outs[lbl] = (new_env, keep, cur) if keep else None
                     else:
-                        feas = any(tri(st.test, flag, v) in (want, None) for v in cur)
-                        keepc = frozenset(v for v in cur if tri(st.test, flag, v) in (want, None))
+                        feas = any(tri(st.test, flag, v, hook) in (want, None) for v in cur)
+                        keepc = frozenset(v for v in cur if tri(st.test, flag, v, hook) in (want, None))
                         outs[lbl] = (new_env, orig, keepc) if feas else None
                 d = edges_state(T=outs["T"], F=outs["F"])
                 d[None] = (new_env, orig, cur)
@@ -391,6 +423,51 @@ class Effects:
                 env["self." + t.attr] = val
             else:
                 record(n, st, self.roots(f, t.value, env), flags_now, "attribute assignment")
+
+
+_DESUGARED = {}
+
+
+def _desugar_ifexp(fnode):
+    """``x = a if c else b`` / ``return a if c else b`` as If statements (copy of the function; the analysis is then
+    flag-sensitive on them exactly as on the statement form)"""
+    if id(fnode) in _DESUGARED and _DESUGARED[id(fnode)][0] is fnode:
+        return _DESUGARED[id(fnode)][1]
+    if not any(isinstance(x, ast.IfExp) for x in ast.walk(fnode)):
+        _DESUGARED[id(fnode)] = (fnode, fnode)
+        return fnode
+    import copy
+
+    class T(ast.NodeTransformer):
+        def visit_Assign(self, n):
+            if isinstance(n.value, ast.IfExp):
+                a, b = copy.copy(n), copy.copy(n)
+                a.value, b.value = n.value.body, n.value.orelse
+                r = ast.If(test=n.value.test, body=[self.visit(a)], orelse=[self.visit(b)])
+                return ast.copy_location(r, n)
+            return n
+
+        def visit_Return(self, n):
+            if isinstance(n.value, ast.IfExp):
+                a, b = copy.copy(n), copy.copy(n)
+                a.value, b.value = n.value.body, n.value.orelse
+                r = ast.If(test=n.value.test, body=[self.visit(a)], orelse=[self.visit(b)])
+                return ast.copy_location(r, n)
+            return n
+
+        def visit_FunctionDef(self, n):
+            if n is not new:
+                return n
+            self.generic_visit(n)
+            return n
+
+        visit_Lambda = lambda self, n: n
+
+    new = copy.deepcopy(fnode)
+    new = T().visit(new)
+    ast.fix_missing_locations(new)
+    _DESUGARED[id(fnode)] = (fnode, new)
+    return new
 
 
 def _names(t):
